@@ -1057,7 +1057,9 @@ fn main() {
         // the sharp limit (Coq: Fits4.fits4_8188 / fits4_8189) and an id_range_offset overflow inside from_mappings;
         // the panicking ones also go to the model (fits4 <-> real panic sites)
         let ro_overflow: Pairs = (0..32800u32).map(|i| (i, 40000 - i)).chain((0..3u32).map(|i| (40000 + i, 9 - i))).collect();
-        for (name, input) in [("isolated_8189", (0..8189u32).map(|i| (0x100 + 3 * i, 1 + i)).collect::<Pairs>()), ("range_offset_overflow", ro_overflow)] {
+        for (name, pieces, input) in [("isolated_8189", "[(8189%nat, 256, 3, 1, 1)]", (0..8189u32).map(|i| (0x100 + 3 * i, 1 + i)).collect::<Pairs>()),
+                                      ("isolated_9000", "[(9000%nat, 256, 3, 1, 1)]", (0..9000u32).map(|i| (0x100 + 3 * i, 1 + i)).collect::<Pairs>()),
+                                      ("range_offset_overflow", "[(32800%nat, 0, 1, 40000, (-1)); (3%nat, 40000, 1, 9, (-1))]", ro_overflow)] {
             st.evaluations += 1;
             let out = build(&input, 40001);
             match &out {
@@ -1069,7 +1071,9 @@ fn main() {
                 }
                 Outcome::Conflict(c) => report(&mut st, json!({"key": format!("probe-{}-conflict", name), "c": c})),
             }
-            cw.push(format!("CBuild {} {}", coq_pairs(&input), impl_outcome_term(&input, &out, &mut rng)));
+            if !matches!(out, Outcome::Built(_) | Outcome::Conflict(_)) {
+                cw.push(format!("CBuildGen {} {}", pieces, cbool(matches!(out, Outcome::Panic(_)))));
+            }
         }
         // the largest isolated-point mapping that fits: 8188 segments + sentinel = 16 + 8*8189 = 65528 bytes
         let input: Pairs = (0..8188u32).map(|i| (0x100 + 3 * i, 1 + i)).collect();
